@@ -5,6 +5,7 @@ import (
 	"os"
 	"strings"
 	"testing"
+	"verif/run"
 )
 
 func TestLayProbe(t *testing.T) {
@@ -17,6 +18,32 @@ func TestLayProbe(t *testing.T) {
 						fmt.Printf("%s PANIC %v\n", eng, e)
 					}
 				}()
+				if chk := os.Getenv("CHECK"); chk != "" {
+					c := run.MkCase("p", "probe", layCase{Text: text, Engine: eng, Src: "probe"})
+					var r run.Result
+					switch chk {
+					case "C17":
+						r = execC17(c)
+					case "C18":
+						r = execC18(c)
+					case "C19":
+						r = execC19(c)
+					case "C20":
+						r = execC20(c)
+					}
+					fmt.Printf("---- %s %s\n%s\n", chk, eng, text)
+					for _, v := range r.Violations {
+						m := v.Msg
+						if i := strings.Index(m, "--- text"); i > 0 {
+							m = m[:i]
+						}
+						fmt.Printf("   VIOL %s\n        %s\n", v.Sig, m)
+					}
+					if len(r.Violations) == 0 {
+						fmt.Printf("   no violation (nontrivial=%v)\n", r.Nontrivial)
+					}
+					return
+				}
 				_, g, err := layCompile(eng, text)
 				fmt.Printf("---- %s\n%s\n=> err=%v\n", eng, text, err)
 				if err == nil && os.Getenv("DUMP") != "" {
